@@ -17,6 +17,8 @@ pub enum Ans {
     Other,
     Interrupted,
     WouldBlock,
+    /// the underlying writer panics (nothing is written); the panic unwinds through the call
+    Panic,
 }
 
 impl Ans {
@@ -26,6 +28,7 @@ impl Ans {
             Ans::Other => "other",
             Ans::Interrupted => "interrupted",
             Ans::WouldBlock => "wouldblock",
+            Ans::Panic => "panic",
         }
     }
     fn parse(s: &str) -> Ans {
@@ -33,6 +36,7 @@ impl Ans {
             "other" => Ans::Other,
             "interrupted" => Ans::Interrupted,
             "wouldblock" => Ans::WouldBlock,
+            "panic" => Ans::Panic,
             _ => Ans::Ok,
         }
     }
@@ -43,6 +47,8 @@ pub struct Env {
     pub attempts: Vec<Attempt>,
     pub script: VecDeque<Ans>,
     pub next_id: usize,
+    /// id of the attempt at which the scripted writer panicked during the current call
+    pub scripted_panic: Option<usize>,
 }
 
 /// `io::Write` double: logs every attempt, answers from a script (default: accept all bytes,
@@ -88,6 +94,11 @@ impl Write for ScriptedWriter {
                 ok: false,
                 fail_id: Some(id),
             });
+            if ans == Ans::Panic {
+                e.scripted_panic = Some(id);
+                drop(e);
+                panic::panic_any(crate::rt::ScriptedPanic(format!("the underlying writer panics (attempt #{})", id)));
+            }
             let kind = match ans {
                 Ans::Interrupted => io::ErrorKind::Interrupted,
                 Ans::WouldBlock => io::ErrorKind::WouldBlock,
@@ -145,6 +156,8 @@ pub struct Obs {
     pub call: Call,
     pub res: Res,
     pub attempts: Vec<Attempt>,
+    /// the call was ended by a panic of the scripted writer (at its last attempt)
+    pub scripted_panic: bool,
 }
 
 pub struct Run {
@@ -179,6 +192,7 @@ pub fn run(cap: usize, end: &str, hist: &[Op], drop_script: &[Ans]) -> Run {
                 let mut e = env.borrow_mut();
                 e.attempts.clear();
                 e.script = op.faults().iter().copied().collect();
+                e.scripted_panic = None;
             }
             let (call, res) = match op {
                 Op::Emit(l, _) => {
@@ -195,18 +209,31 @@ pub fn run(cap: usize, end: &str, hist: &[Op], drop_script: &[Ans]) -> Run {
                 }
             };
             let attempts = std::mem::take(&mut env.borrow_mut().attempts);
+            let scripted = env.borrow_mut().scripted_panic.take();
             match res {
                 Ok(r) => out.obs.push(Obs {
                     call,
                     res: to_res(r),
                     attempts,
+                    scripted_panic: false,
                 }),
+                Err(p) if scripted.is_some() && p.is::<crate::rt::ScriptedPanic>() => {
+                    // the writer's own panic, passed on to the caller: for the reference model the call
+                    // failed with that attempt's failure; the writer stays in use
+                    out.obs.push(Obs {
+                        call,
+                        res: Res::Err(scripted, "the underlying writer panicked".into()),
+                        attempts,
+                        scripted_panic: true,
+                    })
+                }
                 Err(p) => {
                     out.panic = Some((i, crate::common::payload_str(&*p)));
                     out.obs.push(Obs {
                         call,
                         res: Res::Err(None, "panic".into()),
                         attempts,
+                        scripted_panic: false,
                     });
                     // the writer may be in an arbitrary state: leak it rather than drop it
                     std::mem::forget(w);
@@ -261,6 +288,10 @@ pub fn judge(cap: usize, end: &str, hist: &[Op], run: &Run, faulty: bool, with_d
         }
         for b in model.step(&o.call, &o.attempts, &o.res) {
             breaches.push((i, b));
+        }
+        if !o.attempts.is_empty() {
+            // std's BufWriter does not flush when dropped right after its writer panicked
+            model.inner_panicked = o.scripted_panic;
         }
     }
     if with_drop && run.panic.is_none() {
@@ -441,7 +472,7 @@ pub fn bfs(cap: usize, end: &str, maxf: usize, budget: u64) -> Report {
     let name = format!("writer-bfs cap={} end={:?} F={}", cap, end, maxf);
     let mut rep = Report::new(&name);
     let faulty = maxf > 0;
-    let kinds: &[Ans] = &[Ans::Other, Ans::Interrupted, Ans::WouldBlock];
+    let kinds: &[Ans] = &[Ans::Other, Ans::Interrupted, Ans::WouldBlock, Ans::Panic];
     let mut seen: HashSet<(String, Vec<u8>, Vec<usize>)> = HashSet::new();
     let mut frontier: VecDeque<Vec<Op>> = VecDeque::new();
     let mut maxdepth = 0usize;
@@ -564,7 +595,7 @@ pub fn tree(cap: usize, end: &str, depth: usize, maxf_op: usize, maxf_hist: usiz
     );
     let mut rep = Report::new(&name);
     let faulty = maxf_hist > 0;
-    let kinds: &[Ans] = &[Ans::Other, Ans::Interrupted];
+    let kinds: &[Ans] = &[Ans::Other, Ans::Interrupted, Ans::Panic];
     let alpha = alphabet(cap, end);
     // depth-first over histories; each node = one replay of the whole history
     fn rec(
